@@ -10,7 +10,9 @@ ANSI = ["\x1b[31m", "\x1b[0m", "\x1b[1;32mgreen\x1b[0m", "\x1b[2K", "\x1b]0;titl
 NON_ASCII = ["ä", "ß", "日本語", "Ωmega", " ", "﻿", "�", "​", "é"]
 ASTRAL = ["\U0001F600", "\U00010000", "\U0010FFFD", "\U0001D11E"]
 NONCHAR = ["￾", "￿", "﷐", "\U0001FFFE"]
-ALL = XML_META + C0 + C1 + ANSI + NON_ASCII + ASTRAL + NONCHAR
+# harmless for XML, hostile for code that builds its text with %-formatting / str.format / string templates
+FORMAT_META = ["100%", "%s", "%d items", "%(name)s", "%", "{0}", "{name}", "{", "}", "$x", "\\1", "\\g<0>"]
+ALL = XML_META + C0 + C1 + ANSI + NON_ASCII + ASTRAL + NONCHAR + FORMAT_META
 # names inside feature files must stay one line and must not start/end with blanks
 NAME_SAFE = [x for x in ALL if "\n" not in x]
 
